@@ -11,6 +11,8 @@ open MtailVerif.C24
 #print axioms undefined_decorator_reported
 #print axioms redeclaration_reported
 #print axioms overlong_regex_reported
+#print axioms overlong_fragment_reported
+#print axioms recorded_fragments_bounded
 #print axioms invalid_regex_reported
 #print axioms unused_declaration_reported
 #print axioms literal_zero_divisor_reported
